@@ -228,13 +228,24 @@ func run(cfg *node.Config, ts uint32, prefix []Step, last *Step, crashK int64) (
 	}
 	defer n2.StopExecuter()
 	recovered = n2.Dump()
-	inv = invariants(n2)
+	func() {
+		defer func() {
+			if e := recover(); e != nil {
+				inv = []string{fmt.Sprintf("restarted-node-unusable: %v", e)}
+			}
+		}()
+		inv = invariants(n2)
+	}()
 	return pre, nil, nops, recovered, inv, nil
 }
 
 // recovery invariants of C13 on the restarted node
 func invariants(n *node.Node) []string {
 	res := []string{}
+	if n.Tip() == nil || n.Tip().Header == nil {
+		// the block the height index names as the tip cannot be loaded: the node comes up without a tip
+		return []string{"no-tip-after-restart"}
+	}
 	tip := n.Tip().Header.Height
 	fin, err := n.Chain.DataAccess().GetFinalizedHeight()
 	if err != nil {
